@@ -123,8 +123,10 @@ class ComputationCache:
             comp(only)
             # Mark individual as no longer changed.
             self._chromosome.changed = False
-        elif len(cache) != len(funcs):
-            # The individual has not changed, but not all values are cached.
+        elif len(cache) != len(funcs) or (only is not None and only not in cache):
+            # The individual has not changed, but not all values are cached
+            # (the sizes may agree although the requested value is missing,
+            # e.g., after a query for a function that is not registered).
             # So we might have to compute the missing ones.
             comp(only)
 
